@@ -325,4 +325,17 @@ bool one_sided_comparator(char ch1, char ch2)
 {
    return ch1 == std::toupper(ch2);
 }
+
+// R11.5: the diagonal (addressed by row) read with a column index
+struct LuCtl
+{
+   struct { int* orig; int* perm; } row, col;
+   double* diag;
+   double diag_by_column(int i) const
+   {
+      int c = col.orig[i];
+      return diag[c];
+   }
+};
+double use_lu_ctl(const LuCtl& l) { return l.diag_by_column(0); }
 }
